@@ -855,3 +855,30 @@ impl Hash for CoarseHashElem {
         (self.0 % 3).hash(state)
     }
 }
+
+/// ONE-BYTE counting item (`size_of::<CountingByte>() == 1`): `PartialEq` / `Ord` count calls.
+#[derive(Debug, Clone, Copy, Eq, Hash)]
+pub struct CountingByte(pub u8);
+
+impl PartialEq for CountingByte {
+    #[inline]
+    fn eq(&self, other: &Self) -> bool {
+        CMP_COUNT.with(|c| c.set(c.get() + 1));
+        self.0 == other.0
+    }
+}
+
+impl PartialOrd for CountingByte {
+    #[inline]
+    fn partial_cmp(&self, other: &Self) -> Option<std::cmp::Ordering> {
+        Some(self.cmp(other))
+    }
+}
+
+impl Ord for CountingByte {
+    #[inline]
+    fn cmp(&self, other: &Self) -> std::cmp::Ordering {
+        CMP_COUNT.with(|c| c.set(c.get() + 1));
+        self.0.cmp(&other.0)
+    }
+}
